@@ -205,9 +205,29 @@ func (f *TF) buildSum(w int, m map[int]*linTerm, k uint64) *Term {
 	return f.mk(&Term{op: OpAdd, w: w, args: args})
 }
 
+// lowExtract64 reports whether t is the low part of a 64-bit term.
+func lowExtract64(t *Term) bool {
+	return t.op == OpExtract && t.extra&0xff == 0 && t.args[0].w == 64
+}
+
+// lift64 returns a 64-bit term whose low t.w bits equal t.
+func (f *TF) lift64(t *Term) *Term {
+	if lowExtract64(t) {
+		return t.args[0]
+	}
+	if t.IsConst() {
+		return f.Const(64, uint64(t.SVal()))
+	}
+	return f.ZExt(t, 64)
+}
+
 func (f *TF) Add(a, b *Term) *Term {
 	if a.IsConst() && b.IsConst() {
 		return f.Const(a.w, a.val+b.val)
+	}
+	if a.w < 64 && (lowExtract64(a) || lowExtract64(b)) {
+		// truncation distributes over addition: keep the arithmetic wide and linear
+		return f.Extract(f.Add(f.lift64(a), f.lift64(b)), a.w-1, 0)
 	}
 	m := map[int]*linTerm{}
 	var k uint64
@@ -218,6 +238,9 @@ func (f *TF) Add(a, b *Term) *Term {
 func (f *TF) Sub(a, b *Term) *Term {
 	if a.IsConst() && b.IsConst() {
 		return f.Const(a.w, a.val-b.val)
+	}
+	if a.w < 64 && (lowExtract64(a) || lowExtract64(b)) {
+		return f.Extract(f.Sub(f.lift64(a), f.lift64(b)), a.w-1, 0)
 	}
 	m := map[int]*linTerm{}
 	var k uint64
@@ -236,6 +259,9 @@ func (f *TF) Mul(a, b *Term) *Term {
 	if b.IsConst() {
 		if b.val == 0 {
 			return b
+		}
+		if a.w < 64 && lowExtract64(a) {
+			return f.Extract(f.Mul(a.args[0], f.Const(64, uint64(b.SVal()))), a.w-1, 0)
 		}
 		m := map[int]*linTerm{}
 		var k uint64
